@@ -37,6 +37,27 @@ def main():
         jobs.append(dict(harness='h_zlib.cpp', ll=llz, entry='h_zlib_compress', params={'len': L}, models=['zlib_contract'], known=ck.known, eng_opts=eng_opts,
                          native_entry_for=nmap, allow_throw='std'))
     ck.add_results(run_jobs(jobs))
+    # translation validation of the executor against the native build on concrete payloads (seeded)
+    import random
+    rnd = random.Random(common.SEED)
+    def payloads(entry, n):
+        out = []
+        for _ in range(n):
+            L = rnd.choice([0, 7, 8, 25, 27, 28, 31, 33, 40, 44, 49, 57, 73, 81])
+            b = [rnd.randrange(256) for _ in range(L)]
+            if rnd.random() < 0.7 and L >= 8:
+                # plausible header: small counts in both byte orders, zero sample data
+                for i in range(min(L, 33)): b[i] = 0
+                k = rnd.randrange(3)
+                for off in (7, 0, 15, 24, 17 + 7):
+                    if off < L and rnd.random() < 0.6: b[off] = k
+            out.append(b)
+        return out
+    for harness, ll_, entries in (('h_dec_v2.cpp', ll2, V2), ('h_dec_v1.cpp', ll1, V1)):
+        for e in entries:
+            for b in payloads(e, 6 if TIER == 'quick' else 30):
+                common.translation_validate(ck, harness, ll_, e, {'len': len(b)}, [b])
+    ck.extra['translation_validation'] = 'executor vs native ASan/UBSan build on %d concrete payloads (REACH trace and termination must agree)' % ck.tv_cases
     ck.extra['bounds'] = {'payload_length': 'every length 0..%d (beat data: 0..%d), all bytes symbolic (embedded 64-bit counts and one-byte label lengths unconstrained)' % (lmax, 130 if TIER == 'quick' else 160),
                           'allocation': 'operator new(n): n > 16 MiB throws std::bad_alloc, otherwise succeeds',
                           'per_path_instruction_cap': eng_opts['max_steps'], 'zlib_wrappers': 'real zlib_uncompress/zlib_compress over a contract stub: inputs of the listed lengths, <= 8 inflate/deflate calls, <= 2 full output chunks',
